@@ -538,9 +538,68 @@ def fresh_phase(prop, tier, base_seed):
     return out
 
 
+def _deep_job(seed):
+    """a world whose restore has to walk more than a thousand steps down one terminal list (a variable with 1 100 - 2 500
+    probability groups, in second position of one structure and in first position of another): the depth at which the
+    recursive restore passes the interpreter's default recursion limit"""
+    from ..tape import Tape
+    t = Tape(seed=seed)
+    res = RunResult()
+    session.DEFAULT_KNOBS["max_queue_size"] = None
+    G = t.between(1100, 2500)
+    # counts fall linearly from r*G to about G: r = 2 is a flat tail (all chains deep at once), large r a steep one
+    r = t.choice([1.5, 2, 2, 4, 50])
+    counts = [r * G - i * (r - 1) for i in range(G)]
+    total = sum(counts)
+    digits = t.shuffle(["%04d" % i for i in range(3000, 3000 + G)])
+    dvar = [[repr(c / total), [d]] for c, d in zip(counts, digits)]
+    ovar = t.choice([[["0.7", ["!"]], ["0.2", ["#"]], ["0.1", ["$"]]], [["0.5", ["!"]], ["0.3", ["#"]], ["0.2", ["$", "."]]]])
+    base = t.choice([[["O1D4", "0.6"], ["D4O1", "0.4"]], [["O1D4", "0.6"], ["D4O1", "0.3"], ["D4", "0.1"]],
+                     [["D4O1", "0.6"], ["O1D4", "0.4"]]])
+    spec = {"kind": "syn", "pool": "deep", "encoding": "utf-8", "uuid": "00000000-0000-4000-8000-000000000777",
+            "vars": {"D4": dvar, "O1": ovar}, "base": base,
+            "omen": worlds.TRIVIAL_OMEN, "omen_prob": None, "omen_keyspace": None}
+    wr = scratch.fresh_disk()
+    worlds.write_ruleset(spec, os.path.join(wr, "Rules", "R"))
+    flags = {"skip_brute": False, "skip_case": False}
+    U = reference_run(res, "C08", flags)
+    out = {"seed": seed, "groups": G, "violations": [], "cycles": 0, "preterminals": len(U or [])}
+    if U is not None:
+        n = len(U)
+        for _ in range(3):
+            # cuts deep enough that the list has been walked more than a thousand groups down
+            k1 = t.between(int(0.2 * n), n - 1)
+            cuts = [("pop", k1)] + ([("pop", t.between(1, 50))] if t.chance(1, 2) else [])
+            problem, seg = run_history(res, U, cuts, flags, wr)
+            out["cycles"] += len(seg)
+            if problem:
+                res.violate("C08", problem[0], problem[1], key=problem[2])
+                break
+    out["violations"] = [v.as_dict() for v in res.violations if v.prop == "C08"]
+    return out
+
+
+def deep_phase(tier, base_seed):
+    from .. import bigworld
+    out = {"deep_list_worlds": 0, "deep_list_cycles": 0, "deep_list_groups_max": 0, "violations": []}
+    jobs = [(base_seed * 8387 + 900 + i,) for i in range(1 if tier == "quick" else 8)]
+    for r in bigworld._fan_out(_deep_job, jobs):
+        out["deep_list_worlds"] += 1
+        out["deep_list_cycles"] += r["cycles"]
+        out["deep_list_groups_max"] = max(out["deep_list_groups_max"], r["groups"])
+        for v in r["violations"][:1]:
+            v = dict(v, kind="deep_list:" + v["kind"])
+            out["violations"].append({"seed": r["seed"], "tape": [], "violation": v, "case": None})
+    return out
+
+
 def extra_phase(tier, base_seed, prop="C08"):
     from .. import bigworld
     out = fresh_phase(prop, tier, base_seed)
+    if prop == "C08":
+        deep = deep_phase(tier, base_seed)
+        out["violations"].extend(deep.pop("violations", []))
+        out.update(deep)
     big = bigworld.omen_phase(tier, base_seed) if prop == "C15" else bigworld.resume_phase(tier, base_seed)
     out["violations"].extend(big.pop("violations", []))
     out.update(big)
